@@ -9,7 +9,7 @@ evaluations; an argument whose deep snapshot changed; a self-description, GetDef
 differs from a fresh instance built the same way.  A difference between the code and the model's expected
 result that both the used and a fresh instance show is drift (owned by C01-C03).
 """
-import os, json
+import os, json, threading
 from vlib import common
 from props import instance_common as ic
 
@@ -55,15 +55,27 @@ def run(ctx):
     # binding tables of the harness
     ic.consume(ctx, [dict(mode="bind")], ic.run_driver(ctx, drv, [dict(mode="bind")], "bind", jobs=1))
 
-    # the model of the design the property demands: all properties hold; histories exported
-    r, recs = ic.tlc_export(ctx, "instance_c12_thorough.cfg" if thorough else "instance_c12_quick.cfg", "c12", workers=8)
+    # the model of the design the property demands: all properties hold; histories exported (in the background)
+    main = {}
+
+    def do_main():
+        try:
+            main["r"] = ic.tlc_export(ctx, "instance_c12_thorough.cfg" if thorough else "instance_c12_quick.cfg", "c12",
+                                      workers=(8 if thorough else 4), timeout=3000)
+        except Exception as e:      # noqa: BLE001 - re-raised below
+            main["err"] = e
+    tm = threading.Thread(target=do_main)
+    tm.start()
+    # the named deviations on the model first: TLC must exhibit each defect; the witnesses become targeted histories
+    wit = ic.deviations(ctx, "instance_dev_seq.cfg", DEV_SEQ)
+    tm.join()
+    if "err" in main:
+        raise main["err"]
+    r, recs = main["r"]
     ctx.log("InstanceMC (C12):", r, "histories:", len(recs))
     if not recs:
         raise common.Infra("InstanceMC exported no histories")
     ctx.exhaustive = True
-
-    # the named deviations on the model first: TLC must exhibit each defect; the witnesses become targeted histories
-    wit = ic.deviations(ctx, "instance_dev_seq.cfg", DEV_SEQ)
     targeted = hist_cases([w for d in sorted(wit) for w in wit[d]], reps, targeted=True)
     cases = targeted + hist_cases(recs, reps)
     ctx.log("cases: %d (%d targeted from deviation witnesses), %d evaluations per call" % (len(cases), len(targeted), reps))
